@@ -392,8 +392,8 @@ def m_pop_front(ex, a, m):
     return some(v.items.pop(0).v) if v.items else none()
 @model_rx(r'^(VecDeque|core::slice::<impl \[.*\]>)::get$')
 def m_get(ex, a, m):
-    v = deref_all(a[0]); i = pyint(ex, a[1], 'index')
-    return some(Ptr(v.items[i], 'ref')) if 0 <= i < len(v.items) else none()
+    v = deref_all(a[0]); i = ex.index_or_oob(a[1], len(v.items))
+    return some(Ptr(v.items[i], 'ref')) if i is not None else none()
 @model_rx(r'^(Vec|VecDeque)::len$|^core::slice::<impl \[.*\]>::len$')
 def m_vec_len(ex, a, m): return Int(len(deref_all(a[0]).items), 'usize')
 @model_rx(r'^(Vec|VecDeque)::is_empty$|^core::slice::<impl \[.*\]>::is_empty$')
@@ -402,8 +402,8 @@ def m_vec_is_empty(ex, a, m): return Bool(len(deref_all(a[0]).items) == 0)
 def m_vec_deref(ex, a, m): return Ptr(Cell(SliceRef(a[0].cell.v.items)), 'ref')
 @model_rx(r'^<Vec<.*> as std::ops::Index<usize>>::index$|^<Vec<.*> as Index<usize>>::index$')
 def m_vec_index(ex, a, m):
-    v = a[0].cell.v; i = pyint(ex, a[1], 'index')
-    if not (0 <= i < len(v.items)): raise Panic('index out of bounds')
+    v = a[0].cell.v; i = ex.index_or_oob(a[1], len(v.items))
+    if i is None: raise Panic('index out of bounds')
     return Ptr(v.items[i], 'ref')
 @model_rx(r'^<Vec<.*> as Extend<.*>>::extend$')
 def m_vec_extend(ex, a, m):
@@ -796,3 +796,95 @@ def m_map_extend(ex, a, m):
         for k in src.keys(): mp.d[k] = Cell(src.d[k].v)
         return UNIT
     raise Unsupported('map extend from iterator')
+
+# ------------------------------------------------------------------------------------------ integer methods (core::num)
+def _ovf(op, x, y, sg):
+    if op == 'add': return z3.Not(z3.And(z3.BVAddNoOverflow(x, y, sg), z3.BVAddNoUnderflow(x, y))) if sg else z3.Not(z3.BVAddNoOverflow(x, y, False))
+    if op == 'sub': return z3.Not(z3.And(z3.BVSubNoOverflow(x, y), z3.BVSubNoUnderflow(x, y, True))) if sg else z3.Not(z3.BVSubNoUnderflow(x, y, False))
+    if op == 'mul': return z3.Not(z3.And(z3.BVMulNoOverflow(x, y, sg), z3.BVMulNoUnderflow(x, y))) if sg else z3.Not(z3.BVMulNoOverflow(x, y, False))
+def _arith(op, x, y): return {'add': x + y, 'sub': x - y, 'mul': x * y}[op]
+def _minmax(ty):
+    nb = INT_BITS[ty]
+    if ty[0] == 'i': return z3.BitVecVal(-(1 << (nb - 1)), nb), z3.BitVecVal((1 << (nb - 1)) - 1, nb)
+    return z3.BitVecVal(0, nb), z3.BitVecVal((1 << nb) - 1, nb)
+@model_rx(r'^core::num::<impl (\w+)>::(checked|wrapping|saturating|overflowing)_(add|sub|mul)$')
+def m_int_arith(ex, a, m):
+    ty, mode, op = m.groups(); x, y = a[0].bv, a[1].bv; sg = ty[0] == 'i'
+    r = _arith(op, x, y); ov = _ovf(op, x, y, sg)
+    if mode == 'wrapping': return Int(r, ty)
+    if mode == 'overflowing': return Agg('tuple', None, None, [Cell(Int(r, ty)), Cell(Bool(ov))])
+    if mode == 'checked':
+        return none() if MM_branch(ex, Bool(ov)) else some(Int(r, ty))
+    lo, hi = _minmax(ty)
+    if sg:
+        # saturate towards the sign of the true result
+        if op == 'add': sat = z3.If(y < 0, lo, hi)
+        elif op == 'sub': sat = z3.If(y < 0, hi, lo)
+        else: sat = z3.If((x < 0) != (y < 0), lo, hi)
+    else: sat = hi if op != 'sub' else lo
+    return Int(z3.If(ov, sat, r), ty)
+@model_rx(r'^core::num::<impl (\w+)>::(checked|wrapping|saturating|overflowing)_neg$')
+def m_int_neg(ex, a, m):
+    ty, mode = m.groups(); x = a[0].bv; lo, hi = _minmax(ty); sg = ty[0] == 'i'
+    ov = (x == lo) if sg else (x != 0)
+    if mode == 'wrapping': return Int(-x, ty)
+    if mode == 'overflowing': return Agg('tuple', None, None, [Cell(Int(-x, ty)), Cell(Bool(ov))])
+    if mode == 'checked': return none() if MM_branch(ex, Bool(ov)) else some(Int(-x, ty))
+    return Int(z3.If(ov, hi if sg else lo, -x), ty)
+@model_rx(r'^core::num::<impl (i\w+)>::(abs|wrapping_abs|unsigned_abs|checked_abs|signum|is_negative|is_positive)$')
+def m_int_abs(ex, a, m):
+    ty, meth = m.groups(); x = a[0].bv; lo, hi = _minmax(ty)
+    ab = z3.If(x < 0, -x, x)
+    if meth == 'abs':
+        if MM_branch(ex, Bool(x == lo)): raise Panic('attempt to negate with overflow (abs)')
+        return Int(ab, ty)
+    if meth == 'wrapping_abs': return Int(ab, ty)
+    if meth == 'unsigned_abs': return Int(ab, 'u' + ty[1:])
+    if meth == 'checked_abs': return none() if MM_branch(ex, Bool(x == lo)) else some(Int(ab, ty))
+    if meth == 'signum': return Int(z3.If(x < 0, z3.BitVecVal(-1, x.size()), z3.If(x == 0, z3.BitVecVal(0, x.size()), z3.BitVecVal(1, x.size()))), ty)
+    return Bool(x < 0) if meth == 'is_negative' else Bool(x > 0)
+@model_rx(r'^core::num::<impl (\w+)>::(min_value|max_value)$')
+def m_int_minmax(ex, a, m):
+    lo, hi = _minmax(m.group(1)); return Int(lo if m.group(2) == 'min_value' else hi, m.group(1))
+@model_rx(r'^core::num::<impl (\w+)>::(checked|wrapping)_(div|rem|div_euclid|rem_euclid)$|^core::num::<impl (\w+)>::(div_euclid|rem_euclid)$')
+def m_int_div(ex, a, m):
+    raise Unsupported('integer division helpers')
+@model_rx(r'^<(\w+) as Ord>::(min|max)$|^std::cmp::Ord::(min|max)$|^core::cmp::Ord::(min|max)$')
+def m_ord_minmax(ex, a, m):
+    x, y = a
+    if isinstance(x, Int):
+        which = m.group(2) or m.group(3) or m.group(4)
+        gt = z3.UGT(x.bv, y.bv) if not x.signed else x.bv > y.bv
+        return Int(z3.If(gt, x.bv, y.bv) if which == 'max' else z3.If(gt, y.bv, x.bv), x.ty)
+    raise Unsupported('Ord::min/max on non-integers')
+@model_rx(r'^<(\w+) as (?:std::convert::)?(TryFrom|TryInto)<(\w+)>>::(try_from|try_into)$')
+def m_int_tryfrom(ex, a, m):
+    t1, tr, t2, _ = m.groups()
+    dst, src = (t1, t2) if tr == 'TryFrom' else (t2, t1)
+    if dst not in INT_BITS or src not in INT_BITS: raise Unsupported(f'try_from {src}->{dst}')
+    v = a[0]; nb, ob = INT_BITS[dst], INT_BITS[src]; sgs, sgd = src[0] == 'i', dst[0] == 'i'
+    wide = 130
+    xs = z3.SignExt(wide - ob, v.bv) if sgs else z3.ZeroExt(wide - ob, v.bv)
+    lo = -(1 << (nb - 1)) if sgd else 0; hi = (1 << (nb - 1)) - 1 if sgd else (1 << nb) - 1
+    fits = z3.And(xs >= z3.BitVecVal(lo, wide), xs <= z3.BitVecVal(hi, wide))
+    if MM_branch(ex, Bool(fits)): return ok(Int(z3.Extract(nb - 1, 0, xs), dst))
+    return err(Opaque('TryFromIntError'))
+@model_rx(r'^<(\w+) as (?:std::convert::)?(From|Into)<(\w+)>>::(from|into)$')
+def m_int_from(ex, a, m):
+    t1, tr, t2, _ = m.groups()
+    dst, src = (t1, t2) if tr == 'From' else (t2, t1)
+    if dst in INT_BITS and src in INT_BITS: return ex.cast(a[0], dst, 'IntToInt')
+    if dst == 'f64' and src in INT_BITS: return ex.cast(a[0], 'f64', 'IntToFloat')
+    if dst == src: return a[0]
+    raise Unsupported(f'From<{src}> for {dst}')
+@model_rx(r'^<(i8|i16|i32|i64|isize|u8|u16|u32|u64|usize|char) as (PartialOrd|Ord)>::(lt|le|gt|ge|cmp|partial_cmp)$')
+def m_int_cmp(ex, a, m):
+    ty, _, meth = m.groups(); x, y = deref_all(a[0]), deref_all(a[1]); sg = ty[0] == 'i'
+    lt = (x.bv < y.bv) if sg else z3.ULT(x.bv, y.bv); eq = x.bv == y.bv
+    if meth == 'lt': return Bool(lt)
+    if meth == 'le': return Bool(z3.Or(lt, eq))
+    if meth == 'gt': return Bool(z3.Not(z3.Or(lt, eq)))
+    if meth == 'ge': return Bool(z3.Not(lt))
+    lab = ex.choose([('Less', lt), ('Equal', eq), ('Greater', z3.Not(z3.Or(lt, eq)))])
+    o = mk_enum('Ordering', lab, [])
+    return o if meth == 'cmp' else some(o)
